@@ -4,7 +4,7 @@ import (
 	"encoding/binary"
 	"fmt"
 	"io"
-	"slices"
+	"math"
 
 	"github.com/iotaledger/hive.go/ierrors"
 	"github.com/iotaledger/hive.go/serializer/v2"
@@ -15,35 +15,41 @@ func Read[T allowedGenericTypes](reader io.Reader) (result T, err error) {
 	return result, binary.Read(reader, binary.LittleEndian, &result)
 }
 
-// readBytesChunkSize is the most memory ReadBytes allocates ahead of the data it has actually received.
-const readBytesChunkSize = 4096
+// readBytesPreallocLimit is the largest buffer ReadBytes allocates before it has received any data.
+const readBytesPreallocLimit = 1 << 20
 
 // ReadBytes reads exactly length bytes from the reader.
-// The length usually stems from an untrusted length prefix, so the result buffer grows with the data that
-// really arrives instead of being allocated up front.
+// The length usually stems from an untrusted length prefix. Up to readBytesPreallocLimit the result is allocated
+// exactly and filled with a single io.ReadFull. Above the limit the buffer starts at the limit and doubles (capped by
+// length) only after it has been filled, so its capacity never exceeds max(readBytesPreallocLimit, 2 * bytes received).
 func ReadBytes(reader io.Reader, length int) ([]byte, error) {
 	if length < 0 {
 		return nil, ierrors.Errorf("failed to read serialized bytes: invalid size (%d)", length)
 	}
 
-	readBytes := make([]byte, 0, min(length, readBytesChunkSize))
-	for len(readBytes) < length {
-		chunkSize := min(length-len(readBytes), readBytesChunkSize)
-		readBytes = slices.Grow(readBytes, chunkSize)
-
-		// a single Read may legitimately return fewer bytes than requested (io.Reader contract): read until the chunk is full
-		nBytes, err := io.ReadFull(reader, readBytes[len(readBytes):len(readBytes)+chunkSize])
-		readBytes = readBytes[:len(readBytes)+nBytes]
+	readBytes := make([]byte, min(length, readBytesPreallocLimit))
+	received := 0
+	for {
+		// a single Read may legitimately return fewer bytes than requested (io.Reader contract): read until the buffer is full
+		nBytes, err := io.ReadFull(reader, readBytes[received:])
+		received += nBytes
 		if err != nil {
-			if ierrors.Is(err, io.EOF) && len(readBytes) > 0 {
+			if ierrors.Is(err, io.EOF) && received > 0 {
 				err = io.ErrUnexpectedEOF
 			}
 
-			return nil, ierrors.Wrapf(err, "failed to read serialized bytes: read bytes (%d) != size (%d)", len(readBytes), length)
+			return nil, ierrors.Wrapf(err, "failed to read serialized bytes: read bytes (%d) != size (%d)", received, length)
 		}
-	}
 
-	return readBytes, nil
+		if received == length {
+			return readBytes[:received:received], nil
+		}
+
+		// the buffer is full of received data: double it, but never beyond the requested length
+		grown := make([]byte, received+min(received, length-received))
+		copy(grown, readBytes)
+		readBytes = grown
+	}
 }
 
 // ReadBytesWithSize reads a byte slice from the reader where lenType specifies the serialization length prefix type.
@@ -160,15 +166,25 @@ func readFixedSize(reader io.Reader, lenType serializer.SeriLengthPrefixType) (i
 			return 0, ierrors.Wrap(err, "failed to read length prefix")
 		}
 
-		return int(result), nil
+		return sizeToInt(uint64(result))
 	case serializer.SeriLengthPrefixTypeAsUint64:
 		result, err := Read[uint64](reader)
 		if err != nil {
 			return 0, ierrors.Wrap(err, "failed to read length prefix")
 		}
 
-		return int(result), nil
+		return sizeToInt(result)
 	default:
 		panic(fmt.Sprintf("unknown slice length type %v", lenType))
 	}
+}
+
+// sizeToInt converts a length prefix to int. A prefix that does not fit (a uint64 prefix >= 2^63, or a uint32 prefix
+// >= 2^31 on a 32-bit platform) would turn into a negative size or count, so it is rejected instead.
+func sizeToInt(size uint64) (int, error) {
+	if size > math.MaxInt {
+		return 0, ierrors.Errorf("invalid length prefix (%d): exceeds the maximum size (%d)", size, math.MaxInt)
+	}
+
+	return int(size), nil
 }
